@@ -1395,4 +1395,38 @@ theorem authz_not_revived (h : Hash) (dbOk : Bool) (ch : Ch) (i : DaIn) (o : Out
 example : authzUpdateStatus (daAuthzRecord ⟨.pending, false⟩ ⟨.valid, .none, .ok, .none, true⟩) true = .valid := by decide
 example : authzUpdateStatus (daAuthzRecord ⟨.pending, true⟩ ⟨.valid, .none, .ok, .none, true⟩) true = .invalid := by decide
 
+/-- **An authorization turns valid only through its own challenges**: when the authorization
+    loaded by `deviceAttest01Validate` (its id comes from the request URL) is another identifier's
+    — none of its own challenges valid — then whatever the attestation is, and even though the
+    device challenge itself may turn valid, that authorization is valid afterwards only if it
+    already was. -/
+theorem authz_foreign_not_valid (az : AzRec) (o : Outcome) (hs : az.status ≠ .valid) :
+    authzUpdateStatus (daAuthzRecord az o) (ownChallengeValid true o) ≠ .valid := by
+  intro hv
+  rcases authz_valid_cause _ _ hv with h1 | ⟨_, _, h3⟩
+  · exact hs h1
+  · simp [ownChallengeValid] at h3
+
+/-- **tpm: the qualifying data must be the whole digest.**  If `certInfo.extraData` differs from
+    SHA-256(token "." thumbprint) in any way — empty, a proper prefix, longer, another account's or
+    another token's digest — the challenge does not turn valid. -/
+theorem tpm_qualifying_data_must_equal_digest (h : Hash) (dbOk : Bool) (ch : Ch) (i : DaIn) (o : Outcome) (f : TpmFacts)
+    (hp : ch.status = .pending) (hf : i.facts = .tpm f)
+    (hne : ∀ th, ch.thumb = some th → f.extraData ≠ h.raw (keyAuth ch.token th))
+    (ho : deviceAttest01Validate h dbOk ch i = .val o) : o.status ≠ .valid := by
+  intro hv
+  have := (device_attest_valid_only_if_partial h dbOk ch i o hp ho hv).2.2.2.2.2.2.2.2.2
+  unfold DaAcceptCoded at this
+  rw [hf] at this
+  cases hfmt : i.format <;> simp only [hfmt] at this
+  obtain ⟨_, ⟨th, h1, h2⟩, _⟩ := this
+  exact hne th h1 h2
+
+example : (deviceAttest01Validate wHash true wCh
+    (wIn .tpm (.tpm ⟨.ok, [], false, true, [s "udid-1"]⟩))) =
+    .val ⟨.invalid, .badAttestationStatement, .ok, .none, false⟩ := by decide
+example : (deviceAttest01Validate wHash true wCh
+    (wIn .tpm (.tpm ⟨.ok, s "tok.thumb" ++ [0], false, true, [s "udid-1"]⟩))) =
+    .val ⟨.valid, .none, .ok, .none, true⟩ := by decide
+
 end Verif.AcmeChallenge
